@@ -233,7 +233,7 @@ theorem validateMonthly_ok {α : Type} (ap : AP) (data : List (Nat × α))
     (v : Validated (Nat × α)) (h : validateMonthly ap data = .ok v) :
     let sorted := sortByKey (fun p : Nat × α => p.1) data
     let ro := reorder ap.isReversed (fun p : Nat × α => decide (p.1 ≤ ap.end_month))
-      (fun f : Nat × α => decide (f.1 > ap.end_month ∧ f.1 < ap.st_month)) sorted
+      (fun f : Nat × α => decide (ap.st_month = ap.end_month ∨ (f.1 > ap.end_month ∧ f.1 < ap.st_month))) sorted
     v.data = ro.1 ∧ hasAdjDup (ro.1.map fun p => p.1) = false := by
   intro sorted ro
   unfold validateMonthly at h
@@ -256,7 +256,7 @@ theorem validateMPH_ok {α : Type} (ap : AP) (data : List (MPH × α))
     (v : Validated (MPH × α)) (h : validateMPH ap data = .ok v) :
     let sorted := sortByKey (fun p : MPH × α => mphKey p.1) data
     let ro := reorder ap.isReversed (fun p : MPH × α => decide (p.1.1 ≤ ap.end_month ∧ p.1.2.1 ≤ ap.end_hour))
-      (fun f : MPH × α => decide (f.1.1 > ap.end_month ∧ f.1.1 < ap.st_month)) sorted
+      (fun f : MPH × α => decide (ap.st_month = ap.end_month ∨ (f.1.1 > ap.end_month ∧ f.1.1 < ap.st_month))) sorted
     v.data = ro.1 ∧ hasAdjDup (ro.1.map fun p => p.1) = false := by
   intro sorted ro
   unfold validateMPH at h
@@ -358,5 +358,156 @@ theorem fitTimestep_fits (ts : Nat) (moys : List Nat) :
       apply List.all_eq_true.mpr
       intro m _
       simp [Nat.mod_one]
+
+end Resample
+
+namespace Resample
+
+/-! ### order of the re-ordered list, generically -/
+
+/-- A list sorted by an injective key that passes the adjacent-duplicate check is strictly
+    increasing in the key. -/
+theorem strict_of_sorted_noAdjDup_key {κ : Type} [DecidableEq κ] (key : κ → Nat) : ∀ (l : List κ),
+    (∀ a ∈ l, ∀ b ∈ l, key a = key b → a = b) → l.Pairwise (fun a b => key a ≤ key b) →
+    hasAdjDup l = false → l.Pairwise (fun a b => key a < key b)
+  | [], _, _, _ => List.Pairwise.nil
+  | [_], _, _, _ => by simp
+  | a :: b :: rest, hinj, hs, hd => by
+    unfold hasAdjDup at hd
+    simp only [Bool.or_eq_false_iff, decide_eq_false_iff_not] at hd
+    have hs' := List.pairwise_cons.mp hs
+    have ih := strict_of_sorted_noAdjDup_key key (b :: rest)
+      (fun x hx y hy => hinj x (List.mem_cons_of_mem _ hx) y (List.mem_cons_of_mem _ hy)) hs'.2 hd.2
+    refine List.pairwise_cons.mpr ⟨?_, ih⟩
+    intro c hc
+    have hab : key a ≤ key b := hs'.1 b (by simp)
+    have hne : key a ≠ key b := fun h => hd.1 (hinj a (by simp) b (by simp) h)
+    have hab' : key a < key b := by omega
+    rcases List.mem_cons.mp hc with rfl | hc
+    · exact hab'
+    · have := (List.pairwise_cons.mp ih).1 c hc; omega
+
+/-- Order of `reorder`'s output for data `(k, value)` sorted by `key k` (injective on the keys that
+    occur) when the output passed the duplicate check: strictly increasing, or – wrapping header,
+    not made annual – the rotation `rest ++ pre` of the sorted list `pre ++ rest`, both runs
+    strictly increasing, every item of `rest` failing `p`, the last item of `pre` satisfying it. -/
+theorem reorder_order {κ α : Type} [DecidableEq κ] (key : κ → Nat) (rev : Bool)
+    (p g : κ × α → Bool) (l : List (κ × α))
+    (hinj : ∀ a ∈ l, ∀ b ∈ l, key a.1 = key b.1 → a.1 = b.1)
+    (hs : l.Pairwise (fun a b => key a.1 ≤ key b.1))
+    (hd : hasAdjDup ((reorder rev p g l).1.map fun x => x.1) = false) :
+    ((reorder rev p g l).1.map fun x => key x.1).Pairwise (· < ·) ∨
+    (rev = true ∧ ∃ pre rest, l = pre ++ rest ∧ (reorder rev p g l).1 = rest ++ pre ∧
+      (rest.map fun x => key x.1).Pairwise (· < ·) ∧ (pre.map fun x => key x.1).Pairwise (· < ·) ∧
+      (∀ x ∈ rest, p x = false) ∧ (pre = [] ∨ ∃ y, pre.getLast? = some y ∧ p y = true)) := by
+  have hinj' : ∀ (m : List (κ × α)), (∀ x ∈ m, x ∈ l) →
+      ∀ a ∈ m.map (fun x => x.1), ∀ b ∈ m.map (fun x => x.1), key a = key b → a = b := by
+    intro m hm a ha b hb hab
+    obtain ⟨x, hx, rfl⟩ := List.mem_map.mp ha
+    obtain ⟨y, hy, rfl⟩ := List.mem_map.mp hb
+    exact hinj x (hm x hx) y (hm y hy) hab
+  have strict : ∀ (m : List (κ × α)), (∀ x ∈ m, x ∈ l) → m.Pairwise (fun a b => key a.1 ≤ key b.1) →
+      hasAdjDup (m.map fun x => x.1) = false → (m.map fun x => key x.1).Pairwise (· < ·) := by
+    intro m hm hsm hdm
+    have := strict_of_sorted_noAdjDup_key key (m.map fun x => x.1) (hinj' m hm)
+      (List.pairwise_map.mpr hsm) hdm
+    have h2 := List.pairwise_map.mp this
+    exact List.pairwise_map.mpr h2
+  rcases reorder_cases rev p g l with hc | ⟨hr, -, hc⟩
+  · left
+    rw [hc] at hd ⊢
+    exact strict l (fun x hx => hx) hs hd
+  · right
+    obtain ⟨pre, rest, e1, e2, e3, e4⟩ := rotateAfterLast_split p l
+    rw [hc, e2] at hd
+    rw [List.map_append] at hd
+    have hsp := List.pairwise_append.mp (e1 ▸ hs)
+    refine ⟨hr, pre, rest, e1, by rw [hc, e2], ?_, ?_, e3, e4⟩
+    · exact strict rest (fun x hx => by rw [e1]; exact List.mem_append_right _ hx) hsp.2.1
+        (hasAdjDup_append_left _ _ hd)
+    · exact strict pre (fun x hx => by rw [e1]; exact List.mem_append_left _ hx) hsp.1
+        (hasAdjDup_append_right _ _ hd)
+
+end Resample
+
+namespace Resample
+
+/-- The period built by a successful hourly validation, with every constructor argument spelled
+    out (`first` / `last` are the earliest / latest datum). -/
+theorem validateHourly_mk {α : Type} (ap : AP) (dl : Bool) (data : List (Nat × α))
+    (v : Validated (Nat × α)) (h : validateHourly ap dl data = .ok v) :
+    ∃ first last,
+      (sortByKey (fun p : Nat × α => p.1) data).head? = some first ∧
+      (sortByKey (fun p : Nat × α => p.1) data).getLast? = some last ∧
+      AP.mk?
+        ((if (reorder ap.isReversed (fun p : Nat × α => decide (p.1 < ap.endMoy + 60))
+              (fun f : Nat × α => decide (doyOfMoy f.1 > ap.endTime.doy ∧ doyOfMoy f.1 < ap.stTime.doy))
+              (sortByKey (fun p : Nat × α => p.1) data)).2 = true then ((1 : Nat), (1 : Nat))
+          else if (ap.isReversed = false ∧ ap.isAnnual = false) ∧ doyOfMoy first.1 < ap.stTime.doy
+            then mdOf dl first.1 else (ap.st_month, ap.st_day)).1 : Nat)
+        ((if (reorder ap.isReversed (fun p : Nat × α => decide (p.1 < ap.endMoy + 60))
+              (fun f : Nat × α => decide (doyOfMoy f.1 > ap.endTime.doy ∧ doyOfMoy f.1 < ap.stTime.doy))
+              (sortByKey (fun p : Nat × α => p.1) data)).2 = true then ((1 : Nat), (1 : Nat))
+          else if (ap.isReversed = false ∧ ap.isAnnual = false) ∧ doyOfMoy first.1 < ap.stTime.doy
+            then mdOf dl first.1 else (ap.st_month, ap.st_day)).2 : Nat)
+        (if ap.isAnnual = false ∧ ap.st_hour ≠ 0 then minHour ap.st_hour
+            ((reorder ap.isReversed (fun p : Nat × α => decide (p.1 < ap.endMoy + 60))
+              (fun f : Nat × α => decide (doyOfMoy f.1 > ap.endTime.doy ∧ doyOfMoy f.1 < ap.stTime.doy))
+              (sortByKey (fun p : Nat × α => p.1) data)).1.map fun p => hourOfMoy p.1)
+          else ap.st_hour : Nat)
+        ((if (reorder ap.isReversed (fun p : Nat × α => decide (p.1 < ap.endMoy + 60))
+              (fun f : Nat × α => decide (doyOfMoy f.1 > ap.endTime.doy ∧ doyOfMoy f.1 < ap.stTime.doy))
+              (sortByKey (fun p : Nat × α => p.1) data)).2 = true then ((12 : Nat), (31 : Nat))
+          else if (ap.isReversed = false ∧ ap.isAnnual = false) ∧ doyOfMoy last.1 > ap.endTime.doy
+            then mdOf dl last.1 else (ap.end_month, ap.end_day)).1 : Nat)
+        ((if (reorder ap.isReversed (fun p : Nat × α => decide (p.1 < ap.endMoy + 60))
+              (fun f : Nat × α => decide (doyOfMoy f.1 > ap.endTime.doy ∧ doyOfMoy f.1 < ap.stTime.doy))
+              (sortByKey (fun p : Nat × α => p.1) data)).2 = true then ((12 : Nat), (31 : Nat))
+          else if (ap.isReversed = false ∧ ap.isAnnual = false) ∧ doyOfMoy last.1 > ap.endTime.doy
+            then mdOf dl last.1 else (ap.end_month, ap.end_day)).2 : Nat)
+        (if ap.isAnnual = false ∧ ap.end_hour ≠ 23 then maxHour ap.end_hour
+            ((reorder ap.isReversed (fun p : Nat × α => decide (p.1 < ap.endMoy + 60))
+              (fun f : Nat × α => decide (doyOfMoy f.1 > ap.endTime.doy ∧ doyOfMoy f.1 < ap.stTime.doy))
+              (sortByKey (fun p : Nat × α => p.1) data)).1.map fun p => hourOfMoy p.1)
+          else ap.end_hour : Nat)
+        (fitTimestep ap.timestep
+          ((reorder ap.isReversed (fun p : Nat × α => decide (p.1 < ap.endMoy + 60))
+              (fun f : Nat × α => decide (doyOfMoy f.1 > ap.endTime.doy ∧ doyOfMoy f.1 < ap.stTime.doy))
+              (sortByKey (fun p : Nat × α => p.1) data)).1.map fun p => p.1))
+        (ap.leap ||
+          (reorder ap.isReversed (fun p : Nat × α => decide (p.1 < ap.endMoy + 60))
+              (fun f : Nat × α => decide (doyOfMoy f.1 > ap.endTime.doy ∧ doyOfMoy f.1 < ap.stTime.doy))
+              (sortByKey (fun p : Nat × α => p.1) data)).1.any fun p => decide (mdOf dl p.1 = (2, 29)))
+        = .ok v.ap := by
+  unfold validateHourly at h
+  dsimp only at h
+  split at h
+  next first last hf hl =>
+    split at h
+    next => cases h
+    next hd =>
+      split at h
+      next => cases h
+      next nap hn =>
+        injection h with h
+        subst h
+        unfold liftAP at hn
+        split at hn
+        next a ha => injection hn with hn; subst hn; exact ⟨first, last, hf, hl, ha⟩
+        next => cases hn
+  next => cases h
+
+/-- In a list sorted by key the head has the smallest key. -/
+theorem head_le_of_sorted {β : Type} (key : β → Nat) (l : List β)
+    (hs : l.Pairwise (fun a b => key a ≤ key b)) (f : β) (hf : l.head? = some f) :
+    ∀ x ∈ l, key f ≤ key x := by
+  intro x hx
+  cases l with
+  | nil => simp at hf
+  | cons a t =>
+    simp at hf; subst hf
+    rcases List.mem_cons.mp hx with rfl | hx
+    · exact Nat.le_refl _
+    · exact (List.pairwise_cons.mp hs).1 x hx
 
 end Resample
